@@ -540,6 +540,12 @@ func errorOracle(last *attempt, o observed, resultNil bool) (bool, string) {
 		if last == nil || !last.received || last.Status != 200 || !last.ReadOK || !last.CloseOK {
 			return false, "a result was returned although no complete 200 response was received"
 		}
+		// the body AS SENT, judged by encoding/json here: the answer, on every endpoint (POST and GET), is
+		// one JSON value followed only by white space - anything after it makes the response malformed /
+		// over-long and must produce an error
+		if !wholeJSON(last.body) {
+			return false, fmt.Sprintf("a result was returned although the %d-byte body of the 200 response is not, as a whole, one JSON value", len(last.body))
+		}
 		return true, ""
 	}
 	if !resultNil {
@@ -549,8 +555,8 @@ func errorOracle(last *attempt, o observed, resultNil bool) (bool, string) {
 		if o.Class != "rsp-error" {
 			return false, "error after a received response is not a jsonclient.RspError (" + o.Class + ")"
 		}
-		if o.Status != last.Status || string(o.body) != string(last.body) {
-			return false, "RspError does not carry the status and body of the response"
+		if o.Status != last.Status || !bytes.Equal(o.body, last.body) {
+			return false, fmt.Sprintf("RspError does not carry the status and body of the response (status %d, %d bytes; the response had status %d, %d bytes)", o.Status, len(o.body), last.Status, len(last.body))
 		}
 		return true, ""
 	}
